@@ -46,6 +46,9 @@ static int invcount[MAXH];
 static struct slot slots[MAXSLOT];
 static int nslots;
 static int emit_counter;
+static int emit_depth;   /* emissions of the owner in progress */
+static int dropped;      /* the handlers' reference has been dropped */
+static int gone;         /* … and nothing else holds the owner any more (as far as a client can tell) */
 static int term_lines, term_cols;
 
 static void out_func(TickitTerm *t, const char *bytes, size_t len, void *user) { (void)t; (void)bytes; (void)len; (void)user; }
@@ -81,7 +84,18 @@ static void do_unbind_slot(int slot)
   do_unbind_id(slots[slot].id);
 }
 
+static void do_emit_inner(int ev);
+
 static void do_emit(int ev)
+{
+  emit_depth++;
+  do_emit_inner(ev);
+  emit_depth--;
+  /* an emitter that holds a reference releases the owner when the outermost emission has ended */
+  if(!emit_depth && dropped) gone = 1;
+}
+
+static void do_emit_inner(int ev)
 {
   emit_counter++;
   if(owner_kind == 1) {
@@ -113,7 +127,10 @@ static void do_emit(int ev)
 
 static void do_destroy(void)
 {
+  if(dropped) return;   /* the handlers own one reference and drop it once */
+  dropped = 1;
   dead = 1;
+  if(!emit_depth) gone = 1;
   if(owner_kind == 1) tickit_pen_unref(pen);
   else                tickit_term_unref(tt);
 }
@@ -137,6 +154,7 @@ static int handler(void *owner, TickitEventFlags flags, void *info, void *data)
     if(!(flags & TICKIT_EV_DESTROY))
       for(int i = 0; i < b->nact; i++) {
         struct action *a = &b->act[i];
+        if(gone) break;   /* the interpreter does not touch an owner that is gone */
         obs(" {%d", i);
         switch(a->kind) {
           case A_BIND:       do_bind(a->a, a->b, a->c); break;
@@ -154,7 +172,7 @@ static int handler(void *owner, TickitEventFlags flags, void *info, void *data)
 
 static void engine_begin(void)
 {
-  owner_kind = 0; pen = NULL; tt = NULL; dead = 0; nslots = 0; emit_counter = 0;
+  owner_kind = 0; pen = NULL; tt = NULL; dead = 0; nslots = 0; emit_counter = 0; emit_depth = 0; dropped = 0; gone = 0;
   memset(behs, 0, sizeof behs);
   memset(invcount, 0, sizeof invcount);
 }
